@@ -34,6 +34,7 @@ class Driver:
             from tinyflux.storages import MemoryStorage
             self.db = tf.TinyFlux(storage=MemoryStorage, auto_index=auto)
         self.handles = {}
+        self.builders = {}          # query builder objects shared by every query of this history (dbmodel.real_query)
 
     def close(self):
         try:
@@ -75,7 +76,7 @@ class Driver:
     def _do(self, o):
         tf, db = self.tf, self.db
         k = o[0]
-        Q = lambda q: real_query(tf, q)
+        Q = lambda q: real_query(tf, q, self.builders)
         if k == "insert":
             pts = self._points(o[1])
             kw = {"compact_key_prefixes": True} if "compact" in o[3:] else {}
@@ -156,7 +157,7 @@ class Driver:
 
     def _handle(self, m, h):
         tf = self.tf
-        Q = lambda q: real_query(tf, q)
+        Q = lambda q: real_query(tf, q, self.builders)
         k = h[0]
         if k == "len":
             return ("nat", len(m))
